@@ -32,7 +32,7 @@ CROSS_RUNS_QUICK = 24
 CROSS_RUNS_THOROUGH = 64
 RUN_TIMEOUT_S = 600
 
-MODES = {"true": True, "false": False, "none": None}
+MODES = {"true": True, "false": False, "none": None, "one": 1}  # 1 is the deprecated spelling of None
 # faults after which the solver has visibly delivered nothing: an answer given anyway must still be the minimal one
 SLOW_SOLVER_S = 6.0
 HARD_FAILURES = ("exe_missing", "exit_before", "killed_before", "exit_after", "killed_after", "sol_missing", "sol_empty",
@@ -114,7 +114,7 @@ def gen_case(seed, run, tier):
     rs = core.stream(seed, "c02/swarm", run)
     rf = core.stream(seed, "c02/faults", run)
     variant = rs.choice(["single", "single", "single", "multi", "multi", "wrong_side", "wrong_side", "missing_component",
-                         "superfluous", "full_rank", "dup_spectator", "dup_shared", "fractional", "electron", "empty_species"])
+                         "superfluous", "full_rank", "dup_spectator", "dup_shared", "dup_two", "fractional", "electron", "empty_species"])
     if rs.random() < 0.05:
         variant = "big"  # more than ten species: two-digit variable names in the integer program
     elif rs.random() < 0.06:
@@ -268,6 +268,20 @@ def gen_case(seed, run, tier):
             reac.append(key)
             prod.append(key)
             dup = True
+    elif variant == "dup_two":
+        c = {z: rw.randint(1, 2) for z in rw.sample(elements, 1)}
+        key = "A%d" % n  # sorts before the S-keys of the abstract mode
+        if formula_mode:
+            key = C.render(C.tree_for(c, rw, Z2SYM))
+        if key not in reac + prod:
+            species.append({"key": key, "comp": {str(z): v for z, v in c.items()}})
+            reac.append(key)
+            prod.append(key)
+            if rw.random() < 0.5:
+                prod.append(rw.choice([k for k in reac if k != key]))
+            else:
+                reac.append(rw.choice([k for k in prod if k != key]))
+            dup = True
     elif variant == "dup_shared":
         if rw.random() < 0.5:
             prod.append(rw.choice(reac))
@@ -309,7 +323,7 @@ def gen_case(seed, run, tier):
         calls.append({"mode": "none", "dup": True})
         calls.append({"mode": "none", "dup": False})
     else:
-        for m in ("true", "false", "none"):
+        for m in ("true", "false", "none") + (("one",) if rs.random() < 0.15 else ()):
             calls.append({"mode": m, "dup": False})
             if rs.random() < 0.2:
                 calls[-1]["psym"] = rs.choice(["plain", "posint", "named"])
@@ -493,13 +507,13 @@ def judge(case, call, rec, faulted):
     import sympy
 
     out = []
-    mode = call["mode"]
+    mode = "none" if call["mode"] == "one" else call["mode"]
     dup = bool(call.get("dup"))
     reac, prod = list(case["reac"]), list(case["prod"])
     shared = [k for k in reac if k in prod]
-    sigbase = {"mode": mode, "dup": dup}
     if dup and not shared:
         dup = False  # the flag must not matter when no species is on both sides
+    sigbase = {"mode": mode, "dup": dup}
     if shared and not dup:
         # species on both sides without allow_duplicates: must be refused
         if rec["outcome"] == "ok":
@@ -879,7 +893,7 @@ def execute(case):
             if rec["outcome"] == "ok" and not call.get("dup"):
                 t = truth_for(case, case["reac"], case["prod"])
             # outcome that must not depend on the hash seed: the vector for unique answers, else only its sum
-            if t is not None and t["d"] >= 2 and call["mode"] == "none" and "result" in r:
+            if t is not None and t["d"] >= 2 and call["mode"] in ("none", "one") and "result" in r:
                 tot = 0
                 for side in r["result"]:
                     for _k, v in side:
